@@ -19,6 +19,10 @@ const (
 	DefaultOracleRewardPercentage  = uint64(70)
 	DefaultInactivePenaltyDuration = uint64(10 * time.Minute)
 	DefaultIBCRequestEnabled       = true
+
+	// MaxSamplingTryCount bounds the number of sampling rounds run (without gas metering) for every request:
+	// an unbounded value stalls block execution, and one above the int range selects no validators at all.
+	MaxSamplingTryCount = uint64(100)
 )
 
 // NewParams creates a new parameter configuration for the oracle module
@@ -84,6 +88,9 @@ func (p Params) Validate() error {
 	}
 	if err := validateUint64("sampling try count", true)(p.SamplingTryCount); err != nil {
 		return err
+	}
+	if p.SamplingTryCount > MaxSamplingTryCount {
+		return fmt.Errorf("sampling try count must not exceed %d: %d", MaxSamplingTryCount, p.SamplingTryCount)
 	}
 	if err := validateUint64("oracle reward percentage", false)(p.OracleRewardPercentage); err != nil {
 		return err
